@@ -110,6 +110,22 @@ def ellipsoidShapeStage (axes : Option (List String)) (shape : List Nat) : Outco
       else .ok
     | _ => .valueError "Ellipsoid covariance matrix must have 3 dimensions"
 
+/-- `validate_ellipsoid(covariance, axes, missing)` with the float linear algebra abstracted:
+`sym[i]` / `pd[i]` say whether matrix `i` passes `np.allclose(A, Aᵀ)` / `all(eigvals(A) > 0)`
+(both numpy tests act matrix by matrix on the stack).  Rows flagged missing are dropped after the
+shape stage and before the two tests. -/
+def validateEllipsoid (axes : Option (List String)) (shape : List Nat) (sym pd : List Bool)
+    (missing : Option (List Bool)) : Outcome :=
+  match ellipsoidShapeStage axes shape with
+  | .ok =>
+    match applyMask (sym.zip pd) missing with
+    | none => .other "IndexError"
+    | some r =>
+      if !(r.all (·.1)) then .valueError "Ellipsoid covariance matrices must be symmetric"
+      else if !(r.all (·.2)) then .valueError "Ellipsoid covariance matrices must be positive-definite"
+      else .ok
+  | e => e
+
 /-! ## dispatch of `validate_data` -/
 inductive Flag where
   | graph | sphere | ellipsoid | lineage | tracklet
